@@ -153,6 +153,9 @@ impl Argument {
             // Set new last_z
             last_z = z[domain.n as usize - (blinding_factors + 1)];
 
+            #[cfg(feature = "verif-hooks")]
+            crate::plonk::verif_hooks::on_argument_vector("perm_z", &z);
+
             let permutation_product_commitment = CS::commit_lagrange(params, &z);
             let permutation_product_poly = domain.lagrange_to_coeff(z);
 
